@@ -37,10 +37,10 @@ func (t *T) WriteTo(w io.Writer) (int64, error) {
 			buf[2] = 9
 		}
 		m, err := w.Write(buf[:3])
-		total = total + int64(m)
 		if err != nil {
 			return err
 		}
+		total = total + int64(m)
 		return nil
 	})
 	if err != nil {
@@ -48,7 +48,7 @@ func (t *T) WriteTo(w io.Writer) (int64, error) {
 	}
 	sub, err := writeTail(w)
 	if err != nil {
-		return total + sub, err
+		return total, err
 	}
 	total += sub
 	return total, nil
@@ -63,20 +63,20 @@ func Restore(r io.Reader) (int, *T, error) {
 	total := 0
 	var buf [8]byte
 	n, err := io.ReadFull(r, buf[:])
-	total += n
 	if err != nil {
 		return total, nil, err
 	}
+	total += n
 	t := &T{N: uint64(buf[0]), Items: map[uint64]bool{}}
 	for i := uint64(0); i < t.N; i++ {
 		n, err := io.ReadFull(r, buf[:1])
-		total += n
 		if err != nil {
 			if err == io.EOF {
 				err = io.ErrUnexpectedEOF
 			}
 			return total, nil, err
 		}
+		total += n
 		t.Items[uint64(buf[0])] = true
 	}
 	if uint64(len(t.Items)) != t.N {
@@ -95,10 +95,10 @@ func (t *T) WriteItems(w io.Writer) (int, error) {
 			rec[8] = 1
 		}
 		n, err := w.Write(rec[:])
-		total += n
 		if err != nil {
 			return total, err
 		}
+		total += n
 	}
 	return total, nil
 }
